@@ -53,6 +53,7 @@ COMPONENTS = {
 # worker side
 
 _MOD = None
+_WORKER_HISTORY = []      # run indices this worker process has executed so far, in order
 
 
 def _load_module(prop):
@@ -98,6 +99,8 @@ def _worker_chunk(args):
             res['harness_errors'].append((run, f'{type(e).__name__}: {e}', traceback.format_exc()))
             continue
         res['runs'] += 1
+        before = _WORKER_HISTORY[-192:]
+        _WORKER_HISTORY.append(run)
         res['digests'].append((run, out['digest'][:16]))
         if out['stats'].get('nontrivial'):
             res['nontrivial'].append(out.get('shape_digest', out['digest'])[:16])
@@ -111,9 +114,9 @@ def _worker_chunk(args):
                     res['stats'][f'{k}.{kk}'] += vv
         if out['violations']:
             if len(res['fail']) < 12:
-                res['fail'].append((run, case, out['violations']))
+                res['fail'].append((run, case, out['violations'], before))
             else:
-                res['fail'].append((run, None, [{'sig': v['sig']} for v in out['violations']]))
+                res['fail'].append((run, None, [{'sig': v['sig']} for v in out['violations']], None))
         if len(res['samples']) < 1:
             res['samples'].append(_MOD.sample(case, out))
     faulthandler.cancel_dump_traceback_later()
@@ -183,6 +186,51 @@ def _execute_case(mod, case, keep_log):
     out = mod.execute(case, keep_log=keep_log)
     out['case_after'] = case      # execute may record decisions into the case
     return out
+
+
+def _execute_with_prelude(mod, prelude_cases, case, keep_log):
+    """Execute `prelude_cases` one after the other in this process, ignoring their outcomes, then `case`."""
+    for pc in prelude_cases:
+        try:
+            core.reset_process_state()
+            mod.execute(copy.deepcopy(pc), keep_log=False)
+        except core.HarnessError:
+            raise
+        except BaseException:
+            pass
+    return _execute_case(mod, case, keep_log)
+
+
+def fails_after(mod, prelude_cases, case, sig):
+    st, out = in_clean_child(_execute_with_prelude, mod, prelude_cases, case, False, timeout=600)
+    return st == 'ok' and any(v['sig'] == sig for v in out['violations'])
+
+
+def _gen_case(mod, master, tier, run):
+    rng = core.rng_for(master, mod.PROP, run, 'gen')
+    case = mod.generate(rng, tier, run)
+    case.update({'property': mod.PROP, 'seed': master, 'run': run, 'tier': tier})
+    return case
+
+
+def find_prelude(mod, master, tier, before, case, sig, deadline):
+    """The failing run does not fail alone.  Find a short list of earlier runs of its worker after which it
+    does (state carried from one execution to the next inside the process), smallest suffix first, then ddmin."""
+    k = 1
+    found = None
+    while k <= max(1, len(before)) and time.time() < deadline:
+        pre = [_gen_case(mod, master, tier, r) for r in before[-k:]]
+        if fails_after(mod, pre, case, sig):
+            found = pre
+            break
+        if k >= len(before):
+            break
+        k = min(len(before), k * 4)
+    if found is None:
+        return None
+    def test(sub):
+        return time.time() < deadline and fails_after(mod, sub, case, sig)
+    return _ddmin_list(found, test)
 
 
 def fails_with(mod, case, sig):
@@ -281,9 +329,12 @@ def minimise(mod, case, sig, budget=400, deadline=None):
 # ---------------------------------------------------------------------------
 # replay
 
-def write_replay(mod, case, violation, tag):
+def write_replay(mod, case, violation, tag, prelude=None):
     os.makedirs(REPLAY_DIR, exist_ok=True)
-    st, out = in_clean_child(_execute_case, mod, case, True)
+    if prelude:
+        st, out = in_clean_child(_execute_with_prelude, mod, prelude, case, True, timeout=600)
+    else:
+        st, out = in_clean_child(_execute_case, mod, case, True)
     if st != 'ok':
         raise core.HarnessError(f'replay execution failed: {out}')
     v = next((x for x in out['violations'] if x['sig'] == violation['sig']), violation)
@@ -293,6 +344,9 @@ def write_replay(mod, case, violation, tag):
         'violation': v,
         'digest': out['digest'],
         'case': case,
+        'prelude': prelude or [],
+        'prelude_note': ('the violation needs the prelude cases to be executed first in the same process: state is carried '
+                         'from one execution to the next (module- or class-level state in the code under test)') if prelude else None,
         'log': out.get('log', [])[-200:],
         'how_to_replay': f'/venv/bin/python /verif/run_check.py {mod.PROP} --replay <this file>',
     }
@@ -308,8 +362,7 @@ def replay_file(path, quiet=False):
         doc = json.load(f)
     core.bootstrap()
     mod = _load_module(doc['property'])
-    core.reset_process_state()
-    out = mod.execute(doc['case'], keep_log=True)
+    out = _execute_with_prelude(mod, doc.get('prelude') or [], doc['case'], True)
     core.reset_process_state()
     same_class = any(v['sig'] == doc['violation']['sig'] for v in out['violations'])
     same_digest = out['digest'] == doc['digest']
@@ -448,25 +501,48 @@ def run_batch(prop, tier, master, nruns, workers, wall_cap_s, selftest_n):
     # violations: one representative per signature, confirmed in a clean child
     exit_code = EXIT_OK
     by_sig = collections.OrderedDict()
-    for run, case, viols in sorted(agg['fail'], key=lambda x: x[0]):
+    for run, case, viols, before in sorted(agg['fail'], key=lambda x: x[0]):
         for v in viols:
             e = by_sig.setdefault(v['sig'], {'runs': [], 'cases': [], 'v': None})
             e['runs'].append(run)
             if case is not None and 'oracle' in v and len(e['cases']) < 16:
-                e['cases'].append((case, v))
+                e['cases'].append((case, v, before or []))
     reports = []
     unreproducible = 0
     min_deadline = time.time() + 240      # wall budget for all minimisation of this batch (real-time cap only)
     for sig, e in by_sig.items():
         chosen = None
-        for case, v in e['cases']:
+        prelude = None
+        for case, v, before in e['cases']:
             if fails_with(mod, case, sig):
                 chosen = (case, v)
                 break
             unreproducible += 1
         if chosen is None:
-            # seen only inside a worker that had executed other runs before: state leaked between runs
+            # seen only inside a worker that had executed other runs before: look for the earlier runs that matter
+            for case, v, before in e['cases'][:3]:
+                if not before:
+                    continue
+                prelude = find_prelude(mod, master, tier, before, case, sig, min(min_deadline, time.time() + 120))
+                if prelude:
+                    chosen = (case, v)
+                    break
+        if chosen is None:
             reports.append({'sig': sig, 'known': False, 'runs': len(e['runs']), 'reproducible_in_isolation': False})
+            continue
+        if prelude:
+            path, doc = write_replay(mod, chosen[0], chosen[1], tag=core.digest(sig)[:6], prelude=prelude)
+            repro, rout = replay_in_fresh_process(path)
+            if not repro:
+                print(f'HARNESS-ERROR property={prop} replay {path} (with prelude) did not reproduce in a fresh process:\n{rout[-1500:]}')
+                return EXIT_HARNESS
+            print(f'VIOLATION property={prop} replay={path}')
+            print(f'  signature: {sig}')
+            print(f'  needs {len(prelude)} earlier execution(s) in the same process (prelude in the replay file): state is carried '
+                  f'from one execution to the next')
+            print(f'  detail: {core.jdump(doc["violation"])[:1200]}')
+            exit_code = EXIT_VIOLATION
+            reports.append({'sig': sig, 'known': False, 'runs': len(e['runs']), 'replay': path, 'prelude_cases': len(prelude)})
             continue
         # full budget for the first signatures, a token one for the tail (cascades of one defect)
         nth = sum(1 for r_ in reports if r_.get('replay') or r_.get('known'))
